@@ -92,7 +92,7 @@ MATCH_UNIVERSES = {"quick": {"U1": 1, "U3": 1, "U4": 1, "U11": 1, "U13": 2},
                    "thorough": {"U1": 2, "U3": 1, "U4": 2, "U5": 2, "U10": 2, "U11": 2, "U13": 2, "U14": 2}}
 
 
-def run_matches(tier, tables, tag):
+def run_matches(tier, tables, tag, only=None):
     """design-level refinement EMatchOp => EMatch: on every reachable quiescent state of EGraphOp (lazy insertion, fifo) that is in
     the scope of the comparison the operational e-matcher computes exactly the declarative match sets that the MC_CC run emitted
     (and that the real ematch_all is compared with).  A disagreement is a tool error."""
@@ -100,7 +100,7 @@ def run_matches(tier, tables, tag):
     import cc
     sys.path.insert(0, UNIV)
     import patterns
-    jobs = [(u, me) for u, me in MATCH_UNIVERSES[tier].items() if u in tables]
+    jobs = [(u, me) for u, me in MATCH_UNIVERSES[tier].items() if u in tables and (only is None or u in only)]
     res = {}
 
     def one(j):
